@@ -221,6 +221,31 @@ def obligations(tier):
 
         obs.append(Obligation(f'dm_simulate.{name}', body, twin=lambda cx, b=body: b(cx, wrong=True), opts={'weight': 12, 'max_paths': 200000}, desc='DensityMatrixSimulator.simulate on prep + channel + (entangler) + channel circuits over 2 qubits (all placements, split on/off, two basis initial states), all channel/gate parameters symbolic, vs ordered sum_k K rho K^dag with documented Kraus operators'))
 
+    # ---- C2: zero-qubit operations (global phase) inside mixed-state simulation: no effect on the density matrix ------
+    def gphase_body(cx, wrong=False):
+        n = 2
+        q = cirq.LineQubit.range(n)
+        t = cx.real('t', -4.0, 4.0)
+        u = cx.real('u', -2.0, 2.0)
+        p = cx.real('p', 0.0, 1.0)
+        split = bool(cx.choose('split', 2))
+        where = cx.choose('where', 3)
+        gp = cirq.global_phase_operation(D.ph(u))
+        ops = [cirq.X(q[0]) ** t, cirq.CNOT(q[0], q[1]), cirq.amplitude_damp(p).on(q[1])]
+        ops.insert(where, gp)
+        rho = np.zeros((4, 4), dtype=object)
+        rho[:] = 0
+        rho[0, 0] = 1
+        rho = apply_kraus([D.X(t)], rho, [0], n)
+        rho = apply_kraus([D.CX(1.0)], rho, [0, 1], n)
+        k = D.kraus_amplitude_damp(p)
+        rho = apply_kraus([perturb(k[0])] + list(k[1:]) if wrong else k, rho, [1], n)
+        sim = cirq.DensityMatrixSimulator(dtype=np.complex128, split_untangled_states=split)
+        res = sim.simulate(cirq.Circuit(ops), qubit_order=q)
+        cx.close(res.final_density_matrix, rho, label=f'DensityMatrixSimulator with a global phase operation, split={split}')
+
+    obs.append(Obligation('dm_simulate.global_phase', gphase_body, twin=lambda cx: gphase_body(cx, wrong=True), opts={'weight': 6}, desc='DensityMatrixSimulator.simulate(X**t, CNOT, amplitude_damp(p)) with a global phase operation exp(i pi u) inserted at every position, split on/off, all parameters symbolic: the zero-qubit operation leaves the density matrix unchanged (regression: the qubit-free factor of the product state made apply_channel raise)'))
+
     # ---- D: simulating with a noise model == simulating the noisy circuit (incl. idle / extra qubits) -----------
     def noise_body(cx, wrong=False):
         p = cx.real('p', 0.0, 1.0)
